@@ -736,7 +736,7 @@ def gen_c05(tier, seed):
     # horizontal-only with integer crop top > 0 into an over-long buffer (spare rows must stay untouched)
     add("h_u8x2_none_long", "quick", "U8x2", "None", 4, 5, 2, 3, (0, 1, 4, 3), ("Convolution", "Bilinear"), ("long", 4))
     # vertical-only into a cropped view
-    add("v_u8_none_cropped", "quick", "U8", "None", 3, 4, 3, 2, None, ("Convolution", "Bilinear"), ("cropped", 5, 4, 1, 1))
+    add("v_u8_none_cropped", "quick", "U8", "None", 2, 4, 2, 2, None, ("Convolution", "Bilinear"), ("cropped", 3, 3, 1, 1), mem=16)
     add("v_u8_sse4_exact", "thorough", "U8", "Sse4_1", 3, 4, 3, 2, None, ("Convolution", "Bilinear"), ("exact",), mem=16, t=3000)
     # horizontal-only SIMD into a cropped view that is not flush with the parent's bottom, 5 rows
     add("h_u8_sse4_cropped_5rows", "quick", "U8", "Sse4_1", 3, 6, 2, 5, (0, 1, 3, 5), ("Convolution", "Bilinear"), ("cropped", 4, 7, 1, 1), mem=14)
